@@ -34,3 +34,12 @@ def register(R, P):
     prop("C09", ["CallStack.append", "CallStack.pop", "NonThreadedExecutor.eval_node", "CellsImpl.on_eval_formula",
                  "TraceGraph.clear_obj", "TraceGraph.get_nodes_with", "TraceManager.clear_obj", "TraceManager.clear_attr_referrers"])
     prop("C17", ["CallStack.rollback", "CallStack.pop", "NonThreadedExecutor._eval_formula", "NonThreadedExecutor._start_exec"])
+
+
+def register2(R, P):
+    P["C19"] = {"targets": list(P["_registry"]), "shards": {},
+                "trusted_base": ["ModelImpl.__init__ (name handling per model.py:867-872; construction glue is bounded only)",
+                                 "util.is_valid_name as uninterpreted predicate valid()", "ReferenceManager.del_all_spec does not touch the registry (C18)",
+                                 "dict primitive operations"],
+                "assumptions": ["isolation between models ('operations on one model never change another') is a whole-program frame condition: bounded driver only",
+                                "termination of AutoNamer.get_next assumed for finite name sets"]}
